@@ -631,6 +631,9 @@ func c05Leaves(tier int) []c05Leaf {
 		{"SafeString(\"ok\")", SafeString("ok"), SafeString("ok"), true},
 		{"\"k\\nw\"", "k\nw", "k\nw", false},
 		{"Unsafe(SafeInt(61616))", Unsafe(SafeInt(61616)), SafeInt(61616), false},
+		// a SafeValue that is rendered by its own String method (seed C05-3: the safe override must already be
+		// in force when the method is dispatched, also for an element held in an interface-typed slot)
+		{"c05SafeStringer(3)", c05SafeStringer(3), c05SafeStringer(3), true},
 	}
 	if tier >= 1 {
 		ls = append(ls,
